@@ -335,7 +335,8 @@ class Runner:
                     return self.sync(op, top)
             elif name == "start":
                 if self.started:
-                    return True
+                    d.start()  # a redundant start() on a running display must change nothing
+                    return self.sync(op, top)
                 d.start()
                 self.started = True
                 if self.kind == "progress":
@@ -364,12 +365,14 @@ class Runner:
         except Boom:
             # the displayed renderable raised inside this call; the harness catches it and the history goes on
             if name in ("start", "stop"):
-                # the display is down (stop() restores in a finally block); what is left of the frame is unspecified, so screen comparison ends here
+                # the display is down (stop() restores in a finally block); what is left of the frame is unspecified from here on,
+                # but the rows printed before must stay and the cursor must not have gone above them
                 self.started = False
                 self.drawn = None
-                self.dead_screen = True
                 self.ctx.cls("render-fault-in-stop")
-                return self.sync(op, 0)
+                ok = self.sync_prefix(op, top)
+                self.dead_screen = True
+                return ok
             if name == "add":
                 # add_task registers the task before its refresh can fail: follow the public task list
                 self.tasks = [[t.id, t.description, int(t.completed), t.visible] for t in d.tasks]
@@ -404,6 +407,32 @@ class Runner:
                 self.between = False
             self.last_frame_h = h
         return self.sync(op, top)
+
+    def sync_prefix(self, op, region_top):
+        """After a draw that raised inside start()/stop(): only the permanent rows and the cursor bound are checked."""
+        chunks = self.file.writes[self.fed:]
+        self.fed = len(self.file.writes)
+        self.vt.reset_min()
+        try:
+            for c in chunks:
+                self.vt.feed(c)
+        except VTError as e:
+            self.ctx.violation("stream", "C10/stream/unsupported", "after %r: %s" % (op, e))
+            return False
+        if self.after_fault or self.dead_screen:
+            return True
+        if self.vt.min_row < region_top:
+            self.ctx.violation("cursor", "C10/cursor/above-live-region", "during %r (which raised) the cursor reached row %d, the live region starts at row %d\nscreen %r" % (op, self.vt.min_row, region_top, self.vt.screen()))
+            return False
+        got = self.vt.screen()
+        for fx in self.fixed:
+            w = [r.rstrip() for r in fx]
+            while w and w[-1] == "":
+                w.pop()
+            if got[:len(w)] == w:
+                return True
+        self.ctx.violation("screen", "C10/screen/%s-%s-raised" % (self.kind, op[0]), "after %r raised, printed rows are gone: screen\n%s\nprinted rows\n%s" % (op, "\n".join(got), "\n".join(self.fixed[0])))
+        return False
 
     def sync_after_fault(self, op):
         chunks = self.file.writes[self.fed:]
@@ -541,10 +570,17 @@ class Faults(Part):
                     # __exit__ of the display
                     st_ = d._live._started if r.kind == "status" else d._started
                     if st_:
+                        top = r.region_top()
+                        was_dead = r.dead_screen or r.after_fault
                         try:
                             d.stop()
                         finally:
                             r.started = False
+                            # whether or not the last draw raised, the rows printed before must still be there and the cursor must not have gone above them
+                            r.dead_screen = was_dead
+                            r.after_fault = False if not was_dead else r.after_fault
+                            if not r.sync_prefix(["stop (leaving the block)"], top):
+                                return
             except Boom as e:
                 propagated = e
             except SutError:
